@@ -215,6 +215,9 @@ def _law_bound(fric, mdot, tight, tol_p, tol_m, tol_res=1e-3):
     return 1e-7 + 1e-6 * abs(fric) + 2 * tol_p + dm + tol_res
 
 
+MEAN_COLUMNS = ("lambda", "reynolds", "v_mean_m_per_s", "vdot_m3_per_s", "vdot_norm_m3_per_s")
+
+
 def mon_c02(net, obs, opts):
     fluid = net.fluid
     gas = bool(fluid.is_gas)
@@ -269,6 +272,7 @@ def mon_c02(net, obs, opts):
                         lam=lam, zeta=zeta, sections_law="per section")
         return re, lam, rho, p1, p2
 
+    pending = []
     # ---- pipes
     if has(net, "pipe") and "res_pipe" in net:
         P, R = net.pipe, net.res_pipe
@@ -350,11 +354,22 @@ def mon_c02(net, obs, opts):
                 if col == "lambda" and min(res_) < 1e-9:
                     continue
                 extra = float(np.mean(lam_spread)) if (col == "lambda" and lam_spread) else 0.0
-                if not (rel(got, want) <= tol or abs(got - want) <= 1e-14 + extra):
-                    obs.violate("derived_" + col, "%s: reported %s=%.10g, from reported mdot/p/T follows %.10g"
-                                % (el, col, got, want), element=el, column=col, reported=got, expected=want, rtol=tol)
-                else:
-                    obs.maxi("max_rel_dev_" + col, rel(got, want) if want else 0.0)
+                pending.append((el, col, got, want, tol, extra, n))
+
+    # Section means of a table are formed by the solver as differences of a running sum over all its pipes, so the
+    # absolute accuracy of one pipe's mean is eps * (sum over the table), e.g. next to a creeping-flow pipe with a
+    # huge laminar friction factor.
+    group_sum = {}
+    for el, col, got, want, tol, extra, n in pending:
+        if col in MEAN_COLUMNS and not math.isnan(want):
+            group_sum[col] = group_sum.get(col, 0.0) + n * abs(want)
+    for el, col, got, want, tol, extra, n in pending:
+        slack = 1e-14 + extra + (16 * 2.3e-16 * group_sum.get(col, 0.0) if col in MEAN_COLUMNS else 0.0)
+        if not (rel(got, want) <= tol or abs(got - want) <= slack):
+            obs.violate("derived_" + col, "%s: reported %s=%.10g, from reported mdot/p/T follows %.10g"
+                        % (el, col, got, want), element=el, column=col, reported=got, expected=want, rtol=tol)
+        else:
+            obs.maxi("max_rel_dev_" + col, rel(got, want) if want else 0.0)
 
     # ---- valves and heat exchangers: zero length, lumped loss coefficient only
     for t in ("valve", "heat_exchanger"):
